@@ -114,19 +114,36 @@ def classify_prefixes(b):
 
 # ----------------------------------------------------------------------------- tracing the save
 class _Traced:
-    def __init__(self, real, key, log, text):
-        self._f, self._key, self._log, self._text = real, key, log, text
+    def __init__(self, real, key, log, text, hid):
+        self._f, self._key, self._log, self._text, self._hid = real, key, log, text, hid
 
     def write(self, data):
         n = self._f.write(data)
         self._f.flush()
         raw = data.encode(self._f.encoding, self._f.errors or "strict") if self._text else bytes(data)
-        self._log.append(("write", self._key, raw))
+        self._log.append(("write", self._key, raw, self._hid))
         return n
+
+    def writelines(self, lines):
+        for line in lines:
+            self.write(line)
+
+    def truncate(self, size=None):
+        self._f.flush()
+        if size is None:
+            size = self._f.tell()
+        r = self._f.truncate(size)
+        self._log.append(("truncate", self._key, size, self._hid))
+        return r
+
+    def seek(self, *a):
+        r = self._f.seek(*a)
+        self._log.append(("seek", self._key, self._f.tell(), self._hid))
+        return r
 
     def close(self):
         if not self._f.closed:
-            self._log.append(("close", self._key))
+            self._log.append(("close", self._key, self._hid))
         self._f.close()
 
     def __enter__(self):
@@ -141,24 +158,32 @@ class _Traced:
 
 
 class trace_save:
-    """Records, in program order, the opens / writes / closes rope issues on files of the rope folder."""
+    """Records, in program order, what rope does to files of the rope folder while it saves: opens (with
+    mode), writes, truncates, seeks, closes through builtins.open, and os.replace / rename / remove."""
 
     def __init__(self, ropedir):
         self.ropedir = os.path.realpath(ropedir)
         self.log = []
 
+    def _key(self, file):
+        try:
+            path = os.path.realpath(os.fspath(file))
+        except TypeError:
+            return None
+        if os.path.dirname(path) != self.ropedir:
+            return None
+        return os.path.basename(path)
+
     def __enter__(self):
         self._orig = builtins.open
-        orig, log, ropedir = self._orig, self.log, self.ropedir
+        self._os = {n: getattr(os, n) for n in ("replace", "rename", "remove", "unlink")}
+        orig, log = self._orig, self.log
+        hids = [0]
 
         def traced_open(file, mode="r", *a, **kw):
-            try:
-                path = os.path.realpath(os.fspath(file))
-            except TypeError:
+            key = self._key(file)
+            if key is None or not isinstance(mode, str) or not any(c in mode for c in "wax+"):
                 return orig(file, mode, *a, **kw)
-            if os.path.dirname(path) != ropedir or not any(c in mode for c in "wax+"):
-                return orig(file, mode, *a, **kw)
-            key = os.path.basename(path)
             trunc = "w" in mode
             text = "b" not in mode
             args = list(a)
@@ -168,15 +193,93 @@ class trace_save:
                 else:
                     kw = dict(kw, buffering=0)
             real = orig(file, mode, *args, **kw)
-            log.append(("open", key, trunc, mode))
-            return _Traced(real, key, log, text)
+            hids[0] += 1
+            log.append(("open", key, trunc, mode, hids[0]))
+            return _Traced(real, key, log, text, hids[0])
+
+        def two(name):
+            def f(src, dst, *a, **kw):
+                r = self._os[name](src, dst, *a, **kw)
+                ks, kd = self._key(src), self._key(dst)
+                if ks is not None or kd is not None:
+                    log.append(("replace", ks or "?outside", kd or "?outside"))
+                return r
+            return f
+
+        def one(name):
+            def f(path, *a, **kw):
+                r = self._os[name](path, *a, **kw)
+                k = self._key(path)
+                if k is not None:
+                    log.append(("remove", k))
+                return r
+            return f
 
         builtins.open = traced_open
+        os.replace, os.rename = two("replace"), two("rename")
+        os.remove, os.unlink = one("remove"), one("unlink")
         return self
 
     def __exit__(self, *a):
         builtins.open = self._orig
+        for n, f in self._os.items():
+            setattr(os, n, f)
         return False
+
+
+def trace_crash_states(old_dir, trace):
+    """Replays the traced operations on the rope folder as it was before the save (old_dir: {name: bytes}),
+    one byte at a time, in program order. Returns [(op index, bytes of that op done, {name: bytes})] -
+    the folder after every prefix (consecutive duplicates dropped)."""
+    files = dict(old_dir)
+    handles = {}
+    states = [(-1, 0, dict(files))]
+
+    def snap(i, k):
+        if states[-1][2] != files:
+            states.append((i, k, dict(files)))
+
+    for i, ev in enumerate(trace):
+        kind = ev[0]
+        if kind == "open":
+            name, trunc, mode, hid = ev[1], ev[2], ev[3], ev[4]
+            if trunc or files.get(name) is None:
+                files[name] = b""
+            handles[hid] = [name, 0, "a" in mode]
+            snap(i, 0)
+        elif kind == "write":
+            name, data, hid = ev[1], ev[2], ev[3]
+            h = handles.get(hid) or [name, 0, False]
+            for k in range(len(data)):
+                c = files.get(h[0]) or b""
+                pos = len(c) if h[2] else h[1]
+                if pos > len(c):
+                    c = c + b"\0" * (pos - len(c))
+                files[h[0]] = c[:pos] + data[k:k + 1] + c[pos + 1:]
+                h[1] = pos + 1
+                snap(i, k + 1)
+        elif kind == "truncate":
+            name, size = ev[1], ev[2]
+            c = files.get(name) or b""
+            files[name] = c[:size] + b"\0" * max(0, size - len(c))
+            snap(i, 0)
+        elif kind == "seek":
+            h = handles.get(ev[3])
+            if h:
+                h[1] = ev[2]
+        elif kind == "replace":
+            src, dst = ev[1], ev[2]
+            c = files.pop(src, None)
+            if not dst.startswith("?") and c is not None:
+                files[dst] = c
+                for h in handles.values():
+                    if h[0] == src:
+                        h[0] = dst
+            snap(i, 0)
+        elif kind == "remove":
+            files.pop(ev[1], None)
+            snap(i, 0)
+    return states
 
 
 # ----------------------------------------------------------------------------- scenarios
@@ -278,17 +381,30 @@ def read_data_files(root):
     return res
 
 
+def read_rope_dir(root):
+    """Every regular file of the rope folder: {name: bytes}."""
+    d = os.path.join(root, ".ropeproject")
+    res = {}
+    if os.path.isdir(d):
+        for name in sorted(os.listdir(d)):
+            p = os.path.join(d, name)
+            if os.path.isfile(p):
+                with open(p, "rb") as f:
+                    res[name] = f.read()
+    return res
+
+
 def put_data_files(root, files):
+    """Make the rope folder hold exactly `files` ({name: bytes | None}); other regular files are removed."""
     d = os.path.join(root, ".ropeproject")
     os.makedirs(d, exist_ok=True)
-    for name in DATA_FILES:
+    for name in os.listdir(d):
         p = os.path.join(d, name)
-        c = files.get(name)
-        if c is None:
-            if os.path.exists(p):
-                os.remove(p)
-        else:
-            with open(p, "wb") as f:
+        if os.path.isfile(p) and files.get(name) is None:
+            os.remove(p)
+    for name, c in files.items():
+        if c is not None:
+            with open(os.path.join(d, name), "wb") as f:
                 f.write(c)
 
 
@@ -340,9 +456,11 @@ def _run_scenario(sc):
         res["expected_objectdb"] = to_pv(p.pycore.object_info.objectdb.files._files)
         res["tree"] = {k: (None if v is None else v.decode("latin-1")) for k, v in read_tree(root).items()}
         res["old_files"] = read_data_files(root)      # the disk the traced save starts from
+        res["old_dir"] = {n: c.decode("latin-1") for n, c in read_rope_dir(root).items()}
         with trace_save(os.path.join(root, ".ropeproject")) as tr:
             p.close()
-        res["trace"] = [list(ev[:2]) + [ev[2].decode("latin-1")] if ev[0] == "write" else list(ev) for ev in tr.log]
+        res["trace"] = [list(ev[:2]) + [ev[2].decode("latin-1")] + list(ev[3:]) if ev[0] == "write" else list(ev)
+                        for ev in tr.log]
         res["new_files"] = read_data_files(root)
         for k in ("old_files", "new_files"):
             res[k] = {n: (None if c is None else c.decode("latin-1")) for n, c in res[k].items()}
